@@ -27,6 +27,9 @@ type C16Script struct {
 	// Again > 0: after a successful Sync the caller consumes Again bytes and calls Sync once
 	// more; the offset is then counted from that new position
 	Again int `json:"again,omitempty"`
+	// Pad > 0: that many zero bytes precede Stream (generated on the fly, not stored):
+	// search bounds and counters that only matter megabytes into a stream
+	Pad int `json:"pad,omitempty"`
 }
 
 type c16 struct{}
@@ -45,7 +48,7 @@ func (c16) Info() core.Info {
 			"oracle is a reference scan written from the property statement (first i with s[i]=0x47, i+4<=len, AFC!=00, PID not in 4..15)",
 			"an injected reader error delivered before the header's 4th byte may surface as that error; nothing else is relaxed",
 		},
-		RequiredProbes: []string{"false_sync_afc0", "false_sync_reserved_pid", "false_sync_then_true", "sync_in_last_3", "notfound", "found_at_0", "preread", "sync_again"},
+		RequiredProbes: []string{"false_sync_afc0", "false_sync_reserved_pid", "false_sync_then_true", "sync_in_last_3", "notfound", "found_at_0", "preread", "sync_again", "sync_after_failed_search", "long_prefix"},
 	}
 }
 
@@ -105,6 +108,62 @@ func falseSync(r *core.Rand, kind int) []byte {
 		return []byte{0x47, 0x00, byte(r.Pick(3, 16)), r.Byte() &^ 0x30}
 	default:
 		return no47(r.Bytes(r.Range(1, 6)))
+	}
+}
+
+func validPacketFixed() []byte {
+	p := make([]byte, 188)
+	p[0], p[1], p[2], p[3] = 0x47, 0x01, 0x23, 0x1A
+	for k := 4; k < 188; k++ {
+		p[k] = byte(k * 5)
+	}
+	return p
+}
+
+// zeros yields n zero bytes without storing them.
+type zeros struct{ n int }
+
+func (z *zeros) Read(p []byte) (int, error) {
+	if z.n <= 0 {
+		return 0, io.EOF
+	}
+	k := len(p)
+	if k > z.n {
+		k = z.n
+	}
+	for i := 0; i < k; i++ {
+		p[i] = 0
+	}
+	z.n -= k
+	return k, nil
+}
+
+// c16Long: the scripted stream preceded by Pad zero bytes.
+func c16Long(s *C16Script, c *core.Ctx) {
+	stream := []byte(s.Stream)
+	want := refSync(stream)
+	c.Probe("long_prefix")
+	c.Log("c16 long pad=%d len=%d want=%d", s.Pad, len(stream), want)
+	c.Unit("stream_bytes", int64(s.Pad+len(stream)))
+	br := bufio.NewReaderSize(io.MultiReader(&zeros{n: s.Pad}, bytes.NewReader(stream)), 4096)
+	var off int64
+	var err error
+	if !c.Call("packet.Sync(long stream)", func() { off, err = packet.Sync(br) }) {
+		return
+	}
+	if want < 0 {
+		if err != gots.ErrSyncByteNotFound {
+			c.Fail("notfound", "long:found_where_none_exists", fmt.Sprint(off, err), "ErrSyncByteNotFound")
+		}
+		return
+	}
+	if err != nil || off != int64(s.Pad+want) {
+		c.Fail("offset", "long:header_far_into_the_stream_missed", fmt.Sprint(off, err), s.Pad+want)
+		return
+	}
+	got, _ := io.ReadAll(br)
+	if !bytes.Equal(got, stream[want:]) {
+		c.Fail("position", "long:reader_not_at_header", len(got), len(stream)-want)
 	}
 }
 
@@ -175,6 +234,10 @@ func (c16) Gen(r *core.Rand, tier string) interface{} {
 	}
 	if r.Chance(1, 4) {
 		s.Again = r.Pick(1, 2, 4, 187, 188, 189, r.Range(1, 400))
+	}
+	if r.Chance(1, 3000) {
+		s.Pad = r.Pick(70000, 1000000, 1900000, 2500000)
+		s.PreRead, s.Scanner, s.BufSize = 0, "bufio", 4096
 	}
 	return s
 }
@@ -306,6 +369,10 @@ func (c16) Exec(script interface{}, c *core.Ctx) {
 	stream := []byte(s.Stream)
 	sr := parties.NewSimReader(stream, s.Reads, c)
 	sr.DefaultKind = s.Default
+	if s.Pad > 0 {
+		c16Long(s, c)
+		return
+	}
 	var ps packet.PeekScanner
 	var rd io.Reader
 	bs := s.BufSize
@@ -393,6 +460,19 @@ func (c16) Exec(script interface{}, c *core.Ctx) {
 		// legitimate only if the failing Read began before the header's last byte had been delivered
 		if sr.FirstErr == nil || (want >= 0 && sr.FirstErrAt >= pre+want+4) {
 			c.Fail("reader_error", "injected_error_surfaced_needlessly", err, want)
+			return
+		}
+		// a search that failed must not leave anything behind: an independent search on a
+		// fresh reader counts from that reader's start
+		fresh := append([]byte{0x11, 0x47, 0x00}, validPacketFixed()...)
+		var off3 int64
+		var err3 error
+		if !c.Call("packet.Sync(fresh reader after failed search)", func() { off3, err3 = packet.Sync(bufio.NewReaderSize(bytes.NewReader(fresh), 64)) }) {
+			return
+		}
+		c.Probe("sync_after_failed_search")
+		if err3 != nil || off3 != 3 {
+			c.Fail("offset", "offset_wrong_after_earlier_failed_search", fmt.Sprint(off3, err3), 3)
 		}
 		return
 	case err == gots.ErrSyncByteNotFound:
@@ -494,6 +574,11 @@ func (c16) Shrink(script interface{}) []interface{} {
 	if s.Again > 0 {
 		n := cp()
 		n.Again = 0
+		out = append(out, n)
+	}
+	if s.Pad > 0 {
+		n := cp()
+		n.Pad = s.Pad / 2
 		out = append(out, n)
 	}
 	if s.Scanner != "bufio" {
